@@ -122,6 +122,7 @@ func applyStringConstraints(constraints *validate.FieldRules, schema *base.Schem
 		for _, value := range stringConstraints.GetIn() {
 			schema.Enum = append(schema.Enum, &yaml.Node{
 				Kind:  yaml.ScalarNode,
+				Tag:   "!!str",
 				Value: value,
 			})
 		}
@@ -132,6 +133,7 @@ func applyStringConstraints(constraints *validate.FieldRules, schema *base.Schem
 		val := stringConstraints.GetConst()
 		schema.Const = &yaml.Node{
 			Kind:  yaml.ScalarNode,
+			Tag:   "!!str",
 			Value: val,
 		}
 	}
